@@ -58,7 +58,11 @@ def _execute(record, root):
         ref = e["ref"]
         errsE = []
         for m in range(len(names)):
-            if e["notconverged"][m] or ref["notconverged"][m] or ref["gap"][m] < 2.0 or not scfsim.thermally_cold(c, ref["gap"][m]):
+            own_gap = e["res"][m]["gap"] if e.get("res") else ref["gap"][m]
+            # domain: a single stable closed-shell solution.  A small gap of BOTH the reference and this solve marks a nearly
+            # degenerate molecule (outside the domain); a small gap of only one of them means that one path has landed on
+            # another stationary point - exactly what the property excludes - and is compared
+            if e["notconverged"][m] or ref["notconverged"][m] or (ref["gap"][m] < 2.0 and own_gap < 2.0) or not scfsim.thermally_cold(c, max(ref["gap"][m], own_gap)):
                 errsE.append(None)
                 continue
             if c["uhf"] and e.get("spin") and e["spin"][m] > 1e-2 and e["Etot"][m] < ref["Etot"][m] - (tol["K_E"] * tau + tol["floor"]):
@@ -121,7 +125,11 @@ class C04(core.Check):
     ]
 
     def plan(self, tier, seed):
-        return [dict(scfsim.gen_session(core.rng_for(seed, PROP, i), closed_only=True), i=i) for i in range(self.runs[tier])]
+        recs = [dict(scfsim.gen_session(core.rng_for(seed, PROP, i), closed_only=True), i=i) for i in range(self.runs[tier])]
+        # record 1: the pinned history of DESIGN section 6 item 39 (Pulay, cold start, H2S next to a full-shell atom)
+        pulay = {"eps": 1e-6, "conv": [2], "sp2": [False], "uhf": False}
+        recs[1] = {"batch": ["h-", "h2s", "h2co"], "method": "AM1", "rotate": 11252395, "seed": 1056303067749, "i": 1, "ops": [{"op": "SOLVE", "cfg": dict(pulay, eps=1e-4), "start": "cold", "cap": 1000}, {"op": "SOLVE", "cfg": dict(pulay, conv=[1]), "start": "cold", "cap": 1000}, {"op": "SOLVE", "cfg": dict(pulay, conv=[0, 0.3]), "start": "cold", "cap": 1000}]}
+        return recs
 
     def shrink_candidates(self, rec):
         out = []
